@@ -33,7 +33,7 @@ def make_configs(rng, compiled_every):
 
 def main(pid, tier, seed, replay):
     import common as C
-    return P.standard_check(pid, LEVEL, tier, seed, make_configs(C.SplitMix64(seed), 8 if tier == "quick" else 5), 16, 300, features, proof_pid="C06", rule=
+    return P.standard_check(pid, LEVEL, tier, seed, make_configs(C.SplitMix64(seed), 16 if tier == "quick" else 5), 48, 400, features, proof_pid="C06", rule=
         "generated programs x {each RAM transformer skipped singly, 3 random subsets} in the interpreter at -j4, one compiled run per few programs; "
         "non-trivial = distinct program with non-empty output",
         extra_tb=["hook H2 in ram/transform/Transformer.cpp (guarded) implements the skipping"])
